@@ -131,11 +131,14 @@ def run_job(args):
                         if job.setup: job.setup(c)
                         job.fn(c)
                     except Reject:
+                        c.unpatch()
                         if inputs is not None: return None, 'precondition not satisfied by the model values', dict(c.symnames)
                         continue
-                    except _Timeout: raise
+                    except _Timeout: c.unpatch(); raise
                     except Exception as e:
+                        c.unpatch()
                         return c, f"raised {type(e).__name__}: {e}", dict(c.symnames)
+                    c.unpatch()
                     return c, None, dict(c.symnames)
                 return None, 'no admissible input generated', {}
             for rec in out['obligations']:
